@@ -118,6 +118,8 @@ static void gen_decimal(vh_rng_t * rng, lit_t * l, int want_integer) {
         l->text[k++] = vh_chance(rng, 1, 2) ? 'E' : 'e';
         if (vh_chance(rng, 1, 3)) { w = vh_chance(rng, 1, 8) && k < 300 ? longruns[vh_below(rng, 12)] : 1 + (int) vh_below(rng, 2); if (w > 2) vh_count("fp.literal_with_a_long_run_of_blanks_around_the_exponent_mark", 1); while (w--) { l->text[k++] = ' '; l->has_ws = 1; } }
         switch (vh_below(rng, 3)) { case 0: l->text[k++] = '+'; break; case 1: l->text[k++] = '-'; break; default: break; }
+        /* leading zeros in the exponent are digits like any other: one exponent in sixteen is padded to 3..70 digits */
+        if (vh_chance(rng, 1, 16) && k < 300) { static const int zl[] = { 3, 5, 6, 7, 8, 16, 40, 60, 62, 64, 66, 70 }; int z = zl[vh_below(rng, 12)]; while (z-- > 0) l->text[k++] = '0'; vh_count("fp.exponent_with_leading_zeros", 1); }
         k += (size_t) snprintf(l->text + k, sizeof l->text - k, "%d", e);
     }
     l->text[k] = 0; l->n = k;
